@@ -9,6 +9,7 @@ package client
 import (
 	"encoding/json"
 	"io"
+	"strconv"
 	"testing"
 
 	"github.com/apernet/hysteria/core/v2/internal/frag"
@@ -251,6 +252,7 @@ func c03Cli(raw json.RawMessage, res map[string]any) {
 var c03Pending = map[*udpConn][]*protocol.UDPMessage{}
 
 func TestVerifC03(t *testing.T) {
+	vParams(t, [][3]string{{"cl_udpMessageChanSize", "N", strconv.Itoa(udpMessageChanSize)}})
 	c03Main(t, func(kind string, raw json.RawMessage, res map[string]any) bool {
 		if kind == "cli" {
 			c03Cli(raw, res)
